@@ -10,6 +10,7 @@ ASSUME = ['instants are compared to the second (X.509 times carry no fractions)'
 def run(ctx):
     exe = vlib.build(ctx)
     vlib.tlc_mc(ctx, 'MC_Lifecycle', 'MC_Lifecycle_window', workers=8)
+    vlib.tlapm(ctx, 'Proofs_Base')     # unbounded: half-open window, one-second grain, no judged status outside the window
     if not ctx.quick:
         vlib.tlc_mc(ctx, 'MC_Lifecycle', 'MC_Lifecycle', workers=12, heap='24g')
     msum, mism = execcommon.mock_replay(ctx, exe, ['MC_Lifecycle_export_window'])
